@@ -2277,7 +2277,16 @@ func (data *Data) UpdateRetentionPolicy(database, name string, rpu *RetentionPol
 		checkRpi.Name = rpi.Name
 	}
 
+	oldName := rpi.Name
 	rpi.updateWithOtherRetentionPolicy(checkRpi)
+	if rpi.Name != oldName {
+		// the policies are keyed by name: move the entry and keep the default pointing at it
+		delete(di.RetentionPolicies, oldName)
+		di.RetentionPolicies[rpi.Name] = rpi
+		if di.DefaultRetentionPolicy == oldName {
+			di.DefaultRetentionPolicy = rpi.Name
+		}
+	}
 
 	if makeDefault {
 		di.DefaultRetentionPolicy = rpi.Name
